@@ -544,6 +544,21 @@ func run(c *core.Ctx) error {
 			nrand++
 		}
 	}
+	// Self-test of the binding (C20_CORRUPT=1): falsify one predicted fused type and one predicted
+	// spill point; the conformance step must report both as drift.
+	if os.Getenv("C20_CORRUPT") != "" {
+		for i := len(cases) / 2; i < len(cases); i++ {
+			if len(cases[i].Ins) == 2 && cases[i].Fused.String() != cases[i].Ins[0].String() && len(cases[i].Taint) == 0 {
+				c.Logf("C20_CORRUPT: predicted fused type of %s changed from %s to %s", cases[i].key(), cases[i].Fused.String(), cases[i].Ins[0].String())
+				cases[i].Fused = cases[i].Ins[0]
+				break
+			}
+		}
+		if k := len(spillCases) / 2; k < len(spillCases) {
+			c.Logf("C20_CORRUPT: predicted spill point of fuser case %s changed from %d to %d", spillCases[k].key(), spillCases[k].SpillAt, spillCases[k].SpillAt+1)
+			spillCases[k].SpillAt++
+		}
+	}
 	c.Set("type_cases", len(cases)-nrand)
 	c.Set("random_type_cases", nrand)
 	c.Set("fuser_cases", len(spillCases))
@@ -595,6 +610,50 @@ var startProfile = func() {}
 
 var reMaxLen = regexp.MustCompile(`\n  MaxLen = \d+`)
 
+// probeFixed tells which of the named defect paths of FuseMerge.tla the tree under test still has
+// (constant Fixed), so that the transcription follows a repaired tree.  It decides no verdict: the
+// oracle judges the real outputs whatever the spec predicts.
+func (e *env) probeFixed() (string, error) {
+	zctx := zed.NewContext()
+	fusedOf := func(terms ...*term) (zed.Type, error) {
+		var vals []zed.Value
+		n := 0
+		for _, t := range terms {
+			typ, err := toType(zctx, t)
+			if err != nil {
+				return nil, err
+			}
+			v, _ := (&gen{counter: &n}).make(typ)
+			vals = append(vals, v)
+		}
+		out, err := e.runFlow(zctx, "fuse(this)", vals, e.defMem, false)
+		if err != nil || len(out) != 1 || out[0].Type() != zed.TypeType {
+			return nil, fmt.Errorf("probe: fuse(this): %v %v", out, err)
+		}
+		return zctx.LookupByValue(out[0].Bytes())
+	}
+	var fixed []string
+	t, err := fusedOf(&term{K: "arr", E: prim("int64")}, &term{K: "set", E: prim("int64")})
+	if err != nil {
+		return "", err
+	}
+	if !duplicateUnionMember(t) {
+		fixed = append(fixed, `"dup"`)
+	}
+	t, err = fusedOf(&term{K: "map", Kt: prim("int64"), Vt: prim("int64")}, &term{K: "map", Kt: prim("string"), Vt: prim("int64")})
+	if err != nil {
+		return "", err
+	}
+	if zed.IsUnionType(t) {
+		fixed = append(fixed, `"map"`)
+	}
+	e.c.Set("spec_defect_paths_repaired_in_tree", fixed)
+	if len(fixed) > 0 {
+		e.c.Logf("probe: the tree under test no longer has the defect path(s) %s; FuseMerge.tla is checked with Fixed = {%s}", strings.Join(fixed, ","), strings.Join(fixed, ","))
+	}
+	return "{" + strings.Join(fixed, ", ") + "}", nil
+}
+
 // runTLC checks FuseMerge.tla (sharded over several TLC processes, the cases
 // are constant-level and TLC evaluates ASSUMEs on one thread) and returns the
 // exported tables.
@@ -610,6 +669,11 @@ func (e *env) runTLC() ([]typeCase, []fuserCase, error) {
 	if err != nil {
 		return nil, nil, err
 	}
+	fixed, err := e.probeFixed()
+	if err != nil {
+		return nil, nil, err
+	}
+	cfgBytes = bytes.Replace(cfgBytes, []byte("\n  Fixed = {}"), []byte("\n  Fixed = "+fixed), 1)
 	type result struct {
 		cases []typeCase
 		spill []fuserCase
@@ -628,7 +692,7 @@ func (e *env) runTLC() ([]typeCase, []fuserCase, error) {
 	go func() {
 		i := nshards + 1
 		defer func() { done <- i }()
-		cfg := fmt.Sprintf("SPECIFICATION Spec\nCONSTANTS\n  Level = 1\n  TripleLevel = 1\n  Shard = %d\n  NShards = %d\n  OutFile = \"\"\n  SpillFile = \"\"\n  MaxLen = 0\n  Mems = {1}\n  Sizes = {3}\n", nshards, nshards)
+		cfg := fmt.Sprintf("SPECIFICATION Spec\nCONSTANTS\n  Level = 1\n  TripleLevel = 1\n  Fixed = "+fixed+"\n  Shard = %d\n  NShards = %d\n  OutFile = \"\"\n  SpillFile = \"\"\n  MaxLen = 0\n  Mems = {1}\n  Sizes = {3}\n", nshards, nshards)
 		res := c.MustHold(core.TLCRun{Module: "FuseMergeRandom", Cfg: cfg, Files: map[string][]byte{"FuseCasesGen.tla": genModule(randomCases(c.Seed+2020, nrandom))},
 			Keep: []string{"random.ndjson"}, Workers: 1, Timeout: timeout, HeapMB: 3072})
 		if res == nil {
